@@ -3,7 +3,7 @@ NEXT Next
 CONSTANTS
   PNorm = {"a", "*", "?", "[", "]", "!", "-", "."}
   PLit = {"]", "-"}
-  PLen = 4
+  PLen = 3
   SAlpha = {"a", ".", "-", "]"}
   SLen = 3
 INVARIANT T_Literal
@@ -14,6 +14,7 @@ INVARIANT T_Wild
 INVARIANT T_Complement
 INVARIANT T_Ranges
 INVARIANT T_Find
+INVARIANT T_FindDef
 INVARIANT T_Trim
 INVARIANT T_Period
 INVARIANT T_Case
